@@ -107,7 +107,7 @@ P("C06", "other",
   "log/offset units inside compound units in autoconvert mode.",
   "The offset calculus branches of _add_sub/_mul_div and _validate_and_extract / _add_ref_of_log_or_offset_unit are not under contract.",
   MIXED + ": proved = converter maps and inverses for all real arguments (A1); bounded = offset calculus and two-stage conversion.",
-  standins=["standins.c06_offset", "standins.c06_logcompound"])
+  standins=["standins.c06_offset", "standins.c06_logcompound", "standins.c06_compare"])
 P("C07", "other",
   "Deductive/structural: _power on scalars is Python's **; the evaluator's operator and priority tables map every operator text "
   "to the matching Python operator with Python's precedence levels; no function on the parsing path calls a code-execution, "
@@ -116,7 +116,7 @@ P("C07", "other",
   "literal spellings x contexts x registries; word forms; audit-hook run over hostile strings.",
   "The tree builder (_build_eval_tree) and tokenizer are not under contract.",
   MIXED + ": proved = operator tables, _power, absence of dynamic evaluation primitives; bounded = tree shape and literal typing.",
-  standins=["standins.c07_eval", "standins.c07_literals"])
+  standins=["standins.c07_eval", "standins.c07_literals", "standins.c07_history"])
 P("C08", "other",
   "Deductive: symbol / has_symbol / _get_symbol; _helper_single_adder stores exactly one entry in the exact table and (when the "
   "table has one) exactly one entry in the case-insensitive index; _add_alias binds every alias to the aliased unit's "
@@ -139,7 +139,7 @@ P("C10", "other",
   "paths including a shared disk cache; a catalogue of ill-formed inputs.",
   "The flexparser-based statement classifiers, solve_dependencies and _build_cache are not under contract.",
   MIXED + ": proved = the adders; bounded = grammar, order and path independence.",
-  standins=["standins.c10_defs", "standins.c10_order"])
+  standins=["standins.c10_defs", "standins.c10_order", "standins.c10_importcache"])
 P("C11", "other",
   "Deductive: ContextChain.insert_contexts / remove_contexts (most recently enabled context first, in both the context list and "
   "the rule maps). Bounded: shortest-path minimality on all digraphs of <= 4 (quick) / 5 (thorough) nodes, bundled context rules "
@@ -190,7 +190,7 @@ P("C15", "other",
   "Assumed: the Quantity constructor, to_units_container on a container / on the literal {}, dimensionless, _get_reduced_units "
   "(which units are merged is bounded); to_compact / to_preferred / to_root_units / to_base_units are bounded only.",
   MIXED + ": proved = value and dimension preservation of to / ito and of the reduced-units pair; bounded = the other helpers and clauses.",
-  standins=["standins.c15_rewrite", "standins.c15_context"])
+  standins=["standins.c15_rewrite", "standins.c15_context", "standins.c15_powers"])
 P("C16", "other",
   "Deductive: PlainUnit.__init__ / __pow__ and the output-unit table get_op_output_unit for the power-like operations. Bounded: "
   "for every function pint handles, results are compared with NumPy applied to root-unit magnitudes with the unit implied by an "
